@@ -454,7 +454,8 @@ func (h *httpServerHandler) handlePostResponse(ctx context.Context, w http.Respo
 	h.logger.Debugf("Received JSON-RPC response for session %s, ID: %v", sessionID, response.ID)
 
 	// Prepare response data
-	requestIDStr := requestIDKey(response.ID)
+	// A pending server request can only be answered by the session it was sent to.
+	requestIDStr := pendingRequestKey(sessionID, response.ID)
 	var responseMessage *json.RawMessage
 
 	// Handle error response.
@@ -751,7 +752,7 @@ func (h *httpServerHandler) SendRequest(ctx context.Context, sessionID string, r
 	}
 
 	// Register request and get response channel.
-	requestIDStr := requestIDKey(request.ID)
+	requestIDStr := pendingRequestKey(sessionID, request.ID)
 	responseChan := h.responseManager.RegisterRequest(requestIDStr)
 	defer h.responseManager.UnregisterRequest(requestIDStr)
 
@@ -801,6 +802,12 @@ func (h *httpServerHandler) isValidPath(requestPath string) bool {
 		return true
 	}
 	return requestPath == h.serverPath
+}
+
+// pendingRequestKey is the key of a pending server-to-client request: the session it was sent to
+// plus the request id, so that an answer posted by another session does not match.
+func pendingRequestKey(sessionID string, id interface{}) string {
+	return sessionID + "\x00" + requestIDKey(id)
 }
 
 // responseManager manages pending requests and their response channels.
